@@ -327,6 +327,12 @@ func runC19(c *core.Ctx, o Options) {
 		}
 	}
 	c.Explanation += " H1 premises: the wire image is built in fresh memory (what was enqueued is not rewritten by a later serialization of the same object), and package session never calls Router.SendRaw."
+	// H4 (premises): the dispatcher finds the message type (ValueByTag returns the first anchored occurrence, also when the tag text
+	// occurs again inside a data field); no library callback in front of the application's refuses a message the store can record
+	if vbt := c.Func("fix", "ValueByTag"); vbt != nil {
+		needleCensus(c, "H4", []*ssa.Function{vbt})
+	}
+	checkCounterStorePlain(c, "H4")
 	c.RuleMin = map[string]int{"H1": 6, "H2": 10, "H3": 3, "H4": 3}
 	c.MinObl = 20
 }
